@@ -12,7 +12,7 @@ RULE = ("Hypothesis: for each of the 34 functions of distance3d.distance, two "
         "exception. Non-trivial: family other than free, or centres "
         "coinciding. Distinct by hash of the pair spec.")
 ASSUMPTIONS = ["L = max(1, sizes, centre distance)"]
-FAMILIES = ["free", "shared", "touch", "inside", "lattice"]
+FAMILIES = ["free", "shared", "touch", "inside", "lattice", "planar"]
 N = {"quick": 30, "thorough": 2000}
 LEVEL = "exploration"
 WHICH = 0
